@@ -77,26 +77,36 @@ class _NumericOperationsImpl(OperationsBlock):
 
     @validate_core
     def bitwise_and(self, x, y):
+        if not _integral_or_boolean(x, y):
+            return NotImplemented
         return binary_op(x, y, opx.bitwise_and)
 
     # TODO: ONNX standard -> not cyclic
     @validate_core
     def bitwise_left_shift(self, x, y):
+        if not _integral_or_boolean(x, y):
+            return NotImplemented
         return binary_op(
             x, y, lambda a, b: opx.bit_shift(a, b, direction="LEFT"), dtypes.uint64
         )
 
     @validate_core
     def bitwise_invert(self, x):
+        if not _integral_or_boolean(x):
+            return NotImplemented
         return unary_op(x, opx.bitwise_not)
 
     @validate_core
     def bitwise_or(self, x, y):
+        if not _integral_or_boolean(x, y):
+            return NotImplemented
         return binary_op(x, y, opx.bitwise_or)
 
     # TODO: ONNX standard -> not cyclic
     @validate_core
     def bitwise_right_shift(self, x, y):
+        if not _integral_or_boolean(x, y):
+            return NotImplemented
         return binary_op(
             x,
             y,
@@ -106,6 +116,8 @@ class _NumericOperationsImpl(OperationsBlock):
 
     @validate_core
     def bitwise_xor(self, x, y):
+        if not _integral_or_boolean(x, y):
+            return NotImplemented
         return binary_op(x, y, opx.bitwise_xor)
 
     @validate_core
@@ -988,6 +1000,15 @@ class NumericOperationsImpl(CoreOperationsImpl, _NumericOperationsImpl): ...
 
 
 class NullableNumericOperationsImpl(NullableOperationsImpl, _NumericOperationsImpl): ...
+
+
+def _integral_or_boolean(*xs) -> bool:
+    """Whether every operand (array or Python scalar) has an integer or boolean dtype."""
+    return all(
+        isinstance(dtype, (dtypes.Integral, dtypes.NullableIntegral))
+        or dtype in (dtypes.bool, dtypes.nbool)
+        for dtype in (ndx.asarray(x).dtype for x in xs)
+    )
 
 
 def _constant_predicate(x: Array, value: bool) -> ndx.Array:
